@@ -3,9 +3,59 @@
     the frozen-table obligations) and followed by [Print Assumptions]. *)
 From Coq Require Import List ZArith Bool.
 From WebpGen Require Tables Consts.
-From Webp Require Import Vp8.Vp8Bool Vp8.Vp8Tables Vp8.Vp8Syntax Vp8.Vp8Kernels Vp8.Vp8KernelProofs Vp8.Vp8Upsample.
+From Webp Require Import Vp8.Vp8Bool Vp8.Vp8Tables Vp8.Vp8Syntax Vp8.Vp8Kernels Vp8.Vp8KernelProofs Vp8.Vp8Upsample
+  Vp8.Vp8BoolAbs Vp8.Vp8BoolEnc Vp8.Vp8SyntaxRT.
 Import ListNotations.
 Open Scope Z_scope.
+
+(** ** Boolean coder round trip: for every sequence of (bit, probability) pairs, the bytes
+    written by the Go encoder model (BoolWriter: range/value/run/nbBits, carry propagation
+    through pending 0xff bytes, PutBit, Finish padding), followed by any number of zero bytes
+    (none included: the decoder reads zeros beyond its input), are decoded by the RFC 6386
+    decoder to exactly the encoded bits.  No length bound, carries included. *)
+Theorem C04_bool_roundtrip : forall ps z, probs_ok ps ->
+  rfc_bits (map snd ps) (bd_init (bool_encode ps ++ repeat 0 z)) = map fst ps.
+Proof. exact bool_roundtrip. Qed.
+Print Assumptions C04_bool_roundtrip.
+
+(** PutBitUniform is PutBit with probability 128 in every reachable encoder state. *)
+Theorem C04_put_uniform_eq_put : forall b w R L k, wrel 8 w R L k -> 128 <= R <= 255 ->
+  bw_put_uniform b w = bw_put b 128 w.
+Proof. exact uniform_eq_put. Qed.
+Print Assumptions C04_put_uniform_eq_put.
+
+(** The decoder half on its own: any stream value inside the arithmetic encoder's final
+    interval is decoded (by the exact-integer decoder, which the RFC decoder refines:
+    Vp8BoolAbs.rfc_refines_abs) to the encoded bits. *)
+Theorem C04_abs_roundtrip : forall ps R L k, probs_ok ps -> 128 <= R <= 255 ->
+  let '(Rf, Lf, kf) := aenc ps (R, L, k) in
+  k <= kf /\ 128 <= Rf <= 255 /\
+  forall J X, kf <= J -> Lf * 2 ^ (J - kf) <= X < (Lf + Rf) * 2 ^ (J - kf) ->
+  L * 2 ^ (J - k) <= X < (L + R) * 2 ^ (J - k) /\
+  adec (map snd ps) (R, X - L * 2 ^ (J - k), J - k) = map fst ps.
+Proof. exact abs_roundtrip. Qed.
+Print Assumptions C04_abs_roundtrip.
+
+(** ** Header syntax round trip (fixed part: colour space, clamping, segment header, filter
+    header, partition count, quantiser header with the signed-value encoding) over
+    (bit, probability) streams, and composed with the boolean coder: parsing the Go
+    encoder's bytes for these symbols returns the emitted fields.  The probability-update
+    and skip-probability fields are not covered (hence _partial). *)
+Theorem C04_syntax_roundtrip_partial : forall abs_default upd_seg upd_lf cs ct sg lf lp q d rest,
+  wf_seg_hdr abs_default upd_seg sg -> wf_lf_hdr upd_lf lf -> 0 <= lp < 4 -> wf_q_hdr q ->
+  sync d (e_fixed_hdr upd_seg upd_lf cs ct sg lf lp q ++ rest) ->
+  exists d', parse_fixed_hdr abs_default d = ((cs, ct, sg, lf, lp, q), d') /\ sync d' rest.
+Proof. exact syntax_roundtrip_fixed. Qed.
+Print Assumptions C04_syntax_roundtrip_partial.
+
+Theorem C04_syntax_roundtrip_bytes_partial : forall abs_default upd_seg upd_lf cs ct sg lf lp q tail z,
+  wf_seg_hdr abs_default upd_seg sg -> wf_lf_hdr upd_lf lf -> 0 <= lp < 4 -> wf_q_hdr q ->
+  probs_ok (e_fixed_hdr upd_seg upd_lf cs ct sg lf lp q ++ tail) ->
+  fst (parse_fixed_hdr abs_default
+         (bd_init (bool_encode (e_fixed_hdr upd_seg upd_lf cs ct sg lf lp q ++ tail) ++ repeat 0 z)))
+  = (cs, ct, sg, lf, lp, q).
+Proof. exact syntax_roundtrip_fixed_bytes. Qed.
+Print Assumptions C04_syntax_roundtrip_bytes_partial.
 
 (** ** Kernel refinements: the Go decoder's short-cuts against the full definitions *)
 
